@@ -43,17 +43,21 @@ K("awkward_ListArray_broadcast_tooffsets",
 # C08: copying one input into the merged buffer touches only its own segment [tooffset, tooffset+length):
 # what earlier inputs wrote stays unchanged (frame), for every FROM->TO pair
 _TOBOOL = "forall(q, 0, %s, toptr[tooffset + q] == ite(fromptr[q] != 0, 1, 0))"
+_FRAME = "forall(q, 0, tooffset, toptr[q] == old(toptr[q]))"
+# the numeric cast to bool is NumPy's (and C's): non-zero is True -- stated from the property (C08), not from the
+# kernel's own Python definition, which once said "> 0" like the kernel did.  Floating point: True exactly when C's
+# `x == 0` is false (so NaN, which compares unequal to everything, is True, as in NumPy); `feq` is the encoding's C ==.
+_TOBOOL_SPECS = dict(
+    [("tobool_from" + t, {"loops": {"L0": ["0 <= i", _FRAME, _TOBOOL % "i"]}, "ensures_ok": [_TOBOOL % "length"]})
+     for t in ("int8", "int16", "int32", "int64", "uint8", "uint16", "uint32", "uint64")]
+    + [("tobool_from" + t, {"store_asserts": {"toptr": ["at == tooffset + i", "value == ite(feq(fromptr[i], 0), 0, 1)"]}})
+       for t in ("float32", "float64")])
 for _nm in ["awkward_NumpyArray_fill", "awkward_NumpyArray_fill_frombool", "awkward_NumpyArray_fill_tobool"]:
     K(_nm,
       extents={"toptr": "tooffset + length", "fromptr": "length"},
-      loops={"L0": ["0 <= i", "forall(q, 0, tooffset, toptr[q] == old(toptr[q]))"]},
-      ensures_ok=["forall(q, 0, tooffset, toptr[q] == old(toptr[q]))"],
-      # the numeric cast to bool is NumPy's (and C's): non-zero is True -- stated from the property (C08), not from
-      # the kernel's own Python definition, which once said "> 0" like the kernel did
-      per_spec=({("tobool_from" + t): {"loops": {"L0": ["0 <= i", "forall(q, 0, tooffset, toptr[q] == old(toptr[q]))", _TOBOOL % "i"]},
-                                         "ensures_ok": [_TOBOOL % "length"]}
-                 for t in ("int8", "int16", "int32", "int64", "uint8", "uint16", "uint32", "uint64")}
-                if _nm.endswith("tobool") else {}),
+      loops={"L0": ["0 <= i", _FRAME]},
+      ensures_ok=[_FRAME],
+      per_spec=(_TOBOOL_SPECS if _nm.endswith("tobool") else {}),
       serves=["C08", "C12", "C13"])
 
 K("awkward_ListArray_fill",
